@@ -33,7 +33,7 @@ EXPLANATION = (
     "input (C03_truly_idle_is_quiescent). For UnhandledEvent(idle=True) the empty-buffer clause is NOT claimed: C03_refuted_unhandled_batch is a "
     "decide-checked witness (a step that hands collect_events an event of a type it does not accept; two retries due at the same instant) in which "
     "UnhandledEvent(idle=True) is published with a due retry still in the tick buffer, heap and mailbox empty; it replays on the real engine "
-    "(harness/corpus/c03_unhandled_idle_batch.json, reported, not attached to the check). The quiescence test, both refill-loop conditions, the guard around the step-result refill, has_space, "
+    "(harness/corpus/c03_unhandled_idle_batch.json, attached; open known finding C03/idle_unhandled_event_with_buffered_tick). The quiescence test, both refill-loop conditions, the guard around the step-result refill, has_space, "
     "the TickIdleCheck / CommandScheduleIdleCheck branches, the buffer-drain loop, the rewind's shape and the server's idle marker "
     "(WorkflowIdleEvent only; release needs idle_since + idle_timeout elapsed + active; a send to an active run withdraws the mark) are "
     "re-extracted from the sources on every run and proved to be what the model does (C03_check_idle_is_source, C03_refill_guard_is_source, "
